@@ -583,7 +583,7 @@ func ruleMergeKeeps(c *Ctx, r *Rep, tier string) {
 	fn := c.Func("sam", "(*Header).AddReference")
 	n := 0
 	for _, e := range effectsOf(fn) {
-		if e.Kind != "store" || !strings.HasPrefix(e.Addr, "bh.refs[") || !strings.Contains(e.Addr, "].") {
+		if e.Kind != "store" || !strings.HasPrefix(e.Addr, "$0.refs[") || !strings.Contains(e.Addr, "].") {
 			continue
 		}
 		// the slot itself is not a field of the owned reference
@@ -592,7 +592,7 @@ func ruleMergeKeeps(c *Ctx, r *Rep, tier string) {
 		r.Instance(rule, 1)
 		key := "sam.(*Header).AddReference#merge-" + F
 		why := ""
-		if e.Val != "r."+F {
+		if e.Val != "$1."+F {
 			why = fmt.Sprintf("the owned reference's %s is set to %s, not to the added reference's %s", F, e.Val, F)
 		} else {
 			guarded := false
@@ -602,7 +602,7 @@ func ruleMergeKeeps(c *Ctx, r *Rep, tier string) {
 					continue
 				}
 				bo, ok := iff.Cond.(*ssa.BinOp)
-				if !ok || bo.Op != token.NEQ || symKey(bo.X) != "r."+F {
+				if !ok || bo.Op != token.NEQ || symKey(bo.X) != "$1."+F {
 					continue
 				}
 				if dominatedByEdge(fn, b, 0, e.Ins.Block()) {
@@ -626,9 +626,9 @@ func ruleMergeKeeps(c *Ctx, r *Rep, tier string) {
 		ok := false
 		got := ""
 		for _, e := range effectsOf(cl) {
-			if e.Kind == "store" && e.Addr == "bh.Comments" {
+			if e.Kind == "store" && e.Addr == "$1.Comments" {
 				got = e.Val
-				ok = e.Val == "append(bh.Comments,[l[4:]])"
+				ok = e.Val == "append($1.Comments,[$0[4:]])"
 			}
 		}
 		r.Check(ok, rule, "sam.commentLine#whole-remainder", c.Pos(cl.Pos()), "the comment is l[4:], everything after \"@CO\\t\"", "the comment stored is "+got+", not the remainder of the line: a comment containing a tab is cut")
@@ -645,7 +645,7 @@ var hdrKinds = []hdrKind{
 	{"progs", "seenProgs", "uid", "Program"},
 }
 
-func itemKey(x string) string { return strings.TrimPrefix(x, "&local:") }
+func itemKey(x string) string { return strings.TrimPrefix(x, "&") }
 
 // hasEffDom: like hasEff, but the effect must be executed on every path to site.
 func hasEffDom(effs []eff, site ssa.Instruction, kind, addr string, vals ...string) *eff {
@@ -679,7 +679,7 @@ func hasEff(effs []eff, kind, addr string, vals ...string) *eff {
 func ruleCoupledHeader(c *Ctx, r *Rep, tier string) {
 	rule := "COUPLED-HEADER"
 	sites := 0
-	slotRE := regexp.MustCompile(`^([A-Za-z0-9_.&:()\[\]]*?)\.(refs|rgs|progs)\[(.*)\]$`)
+	slotRE := regexp.MustCompile(`^([A-Za-z0-9_.&:()\[\]$^#]*?)\.(refs|rgs|progs)\[(.*)\]$`)
 	for _, fn := range c.FuncsIn("sam") {
 		effs := effectsOf(fn)
 		name := c.FnName(fn)
@@ -706,7 +706,7 @@ func ruleCoupledHeader(c *Ctx, r *Rep, tier string) {
 						x := itemKey(X)
 						idv := "len(" + cont + ")"
 						site := fmt.Sprintf("%s#append-%s(%s)", name, k.F, x)
-						o := hasEffDom(effs, e.Ins, "store", x+".owner", H, "&local:"+H)
+						o := hasEffDom(effs, e.Ins, "store", x+".owner", H, "&"+H)
 						need(site+":owner", e.Ins, domOK(o, e.Ins), x+".owner = "+H+" before the append", fmt.Sprintf("%s is appended to %s without %s.owner = %s on every path: the item does not know its header (Remove refuses it, SetName skips the name table)", x, cont, x, H))
 						i := hasEffDom(effs, e.Ins, "store", x+".id", idv)
 						need(site+":id", e.Ins, domOK(i, e.Ins), x+".id = "+idv+" before the append", fmt.Sprintf("%s is appended to %s without %s.id = %s (its index) on every path", x, cont, x, idv))
@@ -776,7 +776,7 @@ func ruleCoupledHeader(c *Ctx, r *Rep, tier string) {
 						J := "(phi:rangeindex+1)"
 						elem := cont + "[" + J + "]"
 						site := fmt.Sprintf("%s#adopt-%s", name, k.F)
-						hv := "&local:" + H
+						hv := "&" + H
 						need(site+":owner", e.Ins, hasEff(effs, "store", elem+".owner", H, hv) != nil, "each adopted item gets owner", "the adopted items keep a nil owner")
 						need(site+":id", e.Ins, hasEff(effs, "store", elem+".id", J) != nil, "each adopted item gets its index as id", "the adopted items are not numbered by their index")
 						need(site+":name-table", e.Ins, hasEff(effs, "mapupdate", H+"."+k.seen+"["+elem+"."+k.name+"]", elem+".id", J) != nil, "each adopted item's name enters "+k.seen, fmt.Sprintf("the adopted items are not entered in %s: later lines or AddReference calls with the same name create duplicates", k.seen))
@@ -795,16 +795,16 @@ func ruleCoupledHeader(c *Ctx, r *Rep, tier string) {
 					site := fmt.Sprintf("%s#slot-%s", name, k.F)
 					if e.Val == "&local:new" {
 						// a fresh copy (Clone): content from the source's item at the same index, owner = the new header
-						cp := hasEff(effs, "store", "*"+e.Addr, "*bh."+k.F+"["+IDX+"]")
-						need(site+":copy", e.Ins, cp != nil, "copy of the source's item at the same index (id equals index by copy)", "the fresh item in slot "+IDX+" is not a copy of bh."+k.F+"["+IDX+"]")
-						o := hasEff(effs, "store", e.Addr+".owner", "&local:"+H, H)
+						cp := hasEff(effs, "store", "*"+e.Addr, "*$0."+k.F+"["+IDX+"]")
+						need(site+":copy", e.Ins, cp != nil, "copy of the source's item at the same index (id equals index by copy)", "the fresh item in slot "+IDX+" is not a copy of the source's "+k.F+"["+IDX+"]")
+						o := hasEff(effs, "store", e.Addr+".owner", "&"+H, H)
 						need(site+":owner", e.Ins, o != nil, "owner = the clone", "the copied item keeps the source header as owner")
-						mk := "next(range(bh." + k.seen + "))"
+						mk := "next(range($0." + k.seen + "))"
 						mc := hasEff(effs, "mapupdate", H+"."+k.seen+"["+mk+"#1]", mk+"#2")
 						need(site+":name-table", e.Ins, mc != nil, k.seen+" copied entry by entry", "the clone's "+k.seen+" is not filled from the source's")
 						continue
 					}
-					o := hasEff(effs, "store", x+".owner", H, "&local:"+H)
+					o := hasEff(effs, "store", x+".owner", H, "&"+H)
 					need(site+":owner", e.Ins, o != nil, x+".owner = "+H, fmt.Sprintf("%s is stored in %s[%s] without becoming owned by %s", x, cont, IDX, H))
 					i := hasEff(effs, "store", x+".id", IDX)
 					need(site+":id", e.Ins, i != nil, x+".id = "+IDX, fmt.Sprintf("%s is stored in %s[%s] but its id is not set to %s: id != index", x, cont, IDX, IDX))
@@ -820,8 +820,8 @@ func ruleCoupledHeader(c *Ctx, r *Rep, tier string) {
 				if fn.Signature.Recv() == nil || !strings.Contains(fn.Signature.Recv().Type().String(), "."+k.typ) {
 					continue
 				}
-				R := fn.Params[0].Name()
-				N := fn.Params[1].Name()
+				R := paramKey(fn.Params[0])
+				N := paramKey(fn.Params[1])
 				st := hasEff(effs, "store", R+"."+k.name, N)
 				if st == nil {
 					continue
